@@ -9,6 +9,14 @@ several configurations:
   interleavings, ALL lists; for LaTeXToPDF additionally ALL completion schedules of the (fake)
   converter processes.
 
+The elements that select with a Selector (RunIf, MapBins, IterateBins) are also run in "decline"
+configurations: their selector is tolerant (raise_on_error=False, documented: "If an exception occurs
+... the result is False") and the user's test FAILS on every value it is not meant for, so the foreign
+values are unselected because of an exception. Axis: element x form of the tolerant selector
+(Selector(f), Selector([f]), Selector((g, f)), a tolerant Selector as an item of an ordinary one,
+SelectContext) x the class of the exception (every class of builtins and lena.core derived from
+Exception and a class of the user's own: 74), judged by the same laws.
+
 Every flow is run through a fresh real element in a private directory and judged by the
 metamorphic relation run(interleave(A, B)) ~ interleave(run(A), B):
 
@@ -48,7 +56,9 @@ RULE = ("every (element configuration, list A of selected values, list B of fore
         "of A and B, converter completion schedule) is executed once on a fresh real element in a "
         "private directory and compared with the run of A alone; a case is non-trivial when both A and "
         "B are non-empty and A alone produces at least one output (a real interleaving of selected "
-        "and foreign values); cases are distinct by construction of the enumeration")
+        "and foreign values) - in a decline configuration (the tolerant selector's test raises on the "
+        "values it is not meant for) in addition the test must really have failed on a foreign value of "
+        "the flow; cases are distinct by construction of the enumeration")
 ASSUMPTIONS = [
     "foreign (unselected) values are chosen by the documented selection rule of each element: bare "
     "numbers, None, strings (not for Write), tuples that are not (data, context) pairs, pairs with "
@@ -61,6 +71,11 @@ ASSUMPTIONS = [
     "one selected value per output file for LaTeXToPDF / PDFToPNG (no two processes for one file)",
     "file ages are owned by the explorer (sentinel mtimes); 'touching the file system' means creating, "
     "removing, rewriting files or creating directories, not reading",
+    "decline configurations: the user's test answers True for the values it is meant for and raises "
+    "an exception of one class for every other value; the classes are those derived from Exception "
+    "(builtins, lena.core, one user-defined), not BaseException-only classes such as KeyboardInterrupt; "
+    "the selector is built with raise_on_error=False (Selector, its list / tuple forms, a tolerant "
+    "Selector inside an ordinary one, SelectContext), for which Selector documents the result False",
     "the relative position of a foreign value with respect to the outputs for selected values is "
     "counted (counter positional_deviations) but not judged: the statement fixes the relative order "
     "of the unselected values only",
@@ -81,11 +96,26 @@ def describe(tier):
                 "of selected values), |B| <= 3 (all 16 + 256 + 4096 ordered lists over the element's 16 "
                 "foreign values; LaTeXToPDF: |B| = 3 over its 8 most different foreign values, 512 "
                 "lists), all interleavings; LaTeXToPDF: all completion schedules of the fake converter "
-                "processes" % _n_cfgs())
+                "processes; " % _n_cfgs()) + _describe_decline(tier)
     return ("10 elements in %d configurations; |A| <= 2, |B| <= 2 over the element's 16 foreign values "
             "(all 16 + 256 lists) and |B| = 3 over its %d most different foreign values (%d lists), all "
             "interleavings; LaTeXToPDF: 3 of its 5 kinds of selected values and all completion schedules "
-            "of the fake converter processes" % (_n_cfgs(), al.SUBPOOL, al.SUBPOOL ** 3))
+            "of the fake converter processes; " % (_n_cfgs(), al.SUBPOOL, al.SUBPOOL ** 3)) \
+        + _describe_decline(tier)
+
+
+def _describe_decline(tier):
+    n = sum(len(al.decline_configs(k, tier)) for k in al.DECLINE_KINDS)
+    if tier == "thorough":
+        return ("RunIf, MapBins, IterateBins in %d more configurations whose tolerant selector declines "
+                "by raising (5 / 4 / 4 forms of the selector x all %d exception classes), |A| <= 2, "
+                "|B| <= 2 over a pool of 16 (RunIf) / 8 foreign values, |B| = 3 over its first 3"
+                % (n, len(al.DECLINE_EXC_NAMES)))
+    return ("RunIf, MapBins, IterateBins in %d more configurations whose tolerant selector declines by "
+            "raising (forms Selector(f) and SelectContext x all %d exception classes, the 3 container "
+            "forms x Exception and its %d direct subclasses), |A| <= 2, |B| <= 1 over a pool of 16 "
+            "(RunIf) / 8 foreign values, |B| = 2 over its first 3"
+            % (n, len(al.DECLINE_EXC_NAMES), len(al.DECLINE_EXC_ROOTS) - 1))
 
 
 def _n_cfgs():
@@ -133,6 +163,41 @@ def shards(tier):
                 for pre in itertools.product(pool, repeat=plen):
                     out.append({"kind": kind, "cfg": cfg, "blen": blen, "prefix": list(pre),
                                 "bound": "|B|<=%d" % blen})
+        if blen == _decline_max_b(tier):
+            out.extend(_decline_shards(tier))
+    return out
+
+
+# the configurations whose selector declines by raising: one shard = one element, one form of the
+# selector, DECLINE_GROUP exception classes, all B lists of the tier
+DECLINE_GROUP = {"RunIf": 4, "MapBins": 2, "IterateBins": 8}
+
+
+def _decline_max_b(tier):
+    return 3 if tier == "thorough" else 2
+
+
+def _decline_shards(tier):
+    out = []
+    for kind in al.DECLINE_KINDS:
+        group = DECLINE_GROUP[kind]
+        for form in al.decline_forms(kind):
+            names = al.decline_excs(form, tier)
+            for i in range(0, len(names), group):
+                out.append({"kind": kind, "cfg": "decline:" + form, "excs": names[i:i + group],
+                            "blen": _decline_max_b(tier), "prefix": [],
+                            "bound": "|B|<=%d" % _decline_max_b(tier)})
+    return out
+
+
+def decline_b_lists(kind, tier):
+    """B lists of a decline configuration: |B| <= 1 over the whole pool; quick: |B| = 2 over its first
+    three values; thorough: |B| = 2 over the whole pool and |B| = 3 over its first three values."""
+    pool = al.decline_b_pool(kind)
+    out = [()] + [(b,) for b in pool]
+    out.extend(itertools.product(pool if tier == "thorough" else pool[:3], repeat=2))
+    if tier == "thorough":
+        out.extend(itertools.product(pool[:3], repeat=3))
     return out
 
 
@@ -219,6 +284,7 @@ def execute(dirs, kind, cfg, a_names, b_names, pattern, plan):
             else:
                 flow_vals.append(B[ib]); flow_names.append(("foreign", b_names[ib])); ib += 1
         b_before = [freeze(b) for b in B]
+        declined0 = al.DECLINED[0]
         flow = _Flow(flow_vals)
         outs = []       # (object, frozen at yield, pulled at yield)
         exc = None
@@ -237,7 +303,8 @@ def execute(dirs, kind, cfg, a_names, b_names, pattern, plan):
     return {"outs": outs, "end": end_frozen, "exc": exc, "exc_at": exc_at, "pulled": flow.pulled,
             "B": B, "b_before": b_before, "b_after": b_after, "snap": snap,
             "commands": [tuple(c) for c in env.commands], "polls": list(env.polls),
-            "flow_names": flow_names, "initial": _initial_snapshot(files)}
+            "flow_names": flow_names, "initial": _initial_snapshot(files),
+            "declined": al.DECLINED[0] - declined0}
 
 
 def _initial_snapshot(files):
@@ -324,6 +391,11 @@ def _snap_diff(got, want):
     return None, None
 
 
+def _coarse(cfg):
+    """'decline:<form>' for the configurations 'decline:<form>:<exception class>'."""
+    return "decline:" + al.decline_parts(cfg)[0] if al.is_decline(cfg) else cfg
+
+
 def judge(res, case, obs, ref, kind, cfg, all_none_plan):
     """Compare the observations of the interleaved flow with those of A alone."""
     b_names = case["b"]
@@ -338,12 +410,22 @@ def judge(res, case, obs, ref, kind, cfg, all_none_plan):
     a_outs, a_end, problems, seen, positional = split_outputs(obs)
     want_b = expected_b_count(ref, obs)
 
+    # the signature of a violation does not name the exception class of a decline configuration
+    # (one defect, one cause): only whether the exception that came out is the selector's own
+    cause_cfg = _coarse(cfg)
+    own = al.decline_parts(cfg)[1] if al.is_decline(cfg) else None
+
     # exception (types only): nothing that A alone does not raise
     if obs["exc"] != ref["exc"]:
         at = obs["exc_at"] or ref["exc_at"] or ("none", "none")
+        cause_exc, cause_at = obs["exc"], at[1]
+        if own is not None:
+            cause_exc = "the exception of the user's test" if obs["exc"] == own else obs["exc"]
+            if at[0] == "foreign":
+                cause_at = "a declined value"
         report("exception", {"raised": obs["exc"], "while_processing": list(at)},
                {"raised": ref["exc"]},
-               {"cfg": cfg, "exc": obs["exc"], "at_kind": at[0], "at": at[1]})
+               {"cfg": cause_cfg, "exc": cause_exc, "at_kind": at[0], "at": cause_at})
         # the remaining laws are judged on what was yielded before the exception only where
         # that is meaningful: identity / mutation of the values that did come out
         want_b = min(want_b, sum(1 for s in seen if s))
@@ -392,7 +474,7 @@ def judge(res, case, obs, ref, kind, cfg, all_none_plan):
             else:
                 diff = "content-after-run"
             report("selected-independent", {"outputs": a_outs}, {"outputs_of_A_alone": r_outs},
-                   {"cfg": cfg, "diff": diff})
+                   {"cfg": cause_cfg, "diff": diff})
 
     # the file system
     want_snap = ref["snap"] if case["a"] else obs["initial"]
@@ -447,11 +529,17 @@ def check_case(res, dirs, cache, kind, cfg, a_names, b_names, pattern, only_plan
             obs = first
         else:
             obs = execute(dirs, kind, cfg, a_names, b_names, pattern, plan)
+        declined = obs["declined"]
         case = dict(base)
         case["plan"] = plan
         found, positional, a_outs = judge(res, case, obs, ref, kind, cfg, all_none)
         nontrivial = bool(a_names) and bool(b_names) and len(ref["outs"]) > 0
-        outcome = (kind, cfg, obs["exc"], hash(obs["snap"]), tuple(_out_signature(obs, b_names)))
+        if al.is_decline(cfg):
+            # ... and the selector was really asked about a foreign value and failed on it
+            nontrivial = nontrivial and declined > ref["declined"]
+            res.count("selector_calls_declined_by_an_exception", declined)
+        outcome = (kind, _coarse(cfg), obs["exc"], hash(obs["snap"]),
+                   tuple(_out_signature(obs, b_names)))
         res.case(nontrivial=nontrivial, outcome=outcome)
         if positional:
             res.count("positional_deviations", positional)
@@ -496,13 +584,23 @@ def run_shard(p, tier):
         os.environ["VERIF_TMPDIR"] = "/dev/shm"   # memory-backed scratch space (speed only)
     with scratch_dir(prefix="lena-verif-c10-") as root, _quiet():
         dirs = _Dirs(root)
-        alist = a_lists(kind, cfg, tier)
-        for b_names in b_lists(p, tier):
-            for a_names in alist:
-                for pattern in patterns(len(a_names), len(b_names)):
-                    case = check_case(res, dirs, cache, kind, cfg, tuple(a_names), tuple(b_names),
-                                      pattern)
-            res.sample(case, 2)
+        if "excs" in p:
+            cfgs = ["%s:%s" % (cfg, e) for e in p["excs"]]
+            blists = decline_b_lists(kind, tier)
+        else:
+            cfgs = [cfg]
+            blists = b_lists(p, tier)
+        for cfg in cfgs:
+            alist = a_lists(kind, cfg, tier)
+            for b_names in blists:
+                for a_names in alist:
+                    for pattern in patterns(len(a_names), len(b_names)):
+                        case = check_case(res, dirs, cache, kind, cfg, tuple(a_names),
+                                          tuple(b_names), pattern)
+                if "excs" not in p:
+                    res.sample(case, 2)
+            if "excs" in p:
+                res.sample(case, 2)
     return res
 
 
@@ -519,10 +617,14 @@ LEVEL_TEXT = ("bounded exhaustive exploration: for each of the ten selective ele
               "configurations each) every interleaving of every list of <= 2 selected values with every "
               "list of <= 3 foreign values from a pool of 16 (quick: <= 2 from 16, 3 from 3) is run on the "
               "real element in a private directory - for LaTeXToPDF under every completion schedule of "
-              "the fake converter processes - and compared with the run of the selected values alone")
+              "the fake converter processes - and compared with the run of the selected values alone; "
+              "RunIf, MapBins and IterateBins also with tolerant selectors (raise_on_error=False, 5 "
+              "forms) whose test raises on the foreign values, for each of 74 exception classes")
 LEVEL_NOTE = ("holds for the enumerated alphabet only; pdflatex / pdftoppm are replaced by an "
               "explorer-owned fake Popen; the position of foreign values relative to outputs for selected "
               "values is measured, not judged")
 TECHNIQUE = ("exhaustive enumeration of interleavings on the real elements with the metamorphic oracle "
              "run(interleave(A, B)) = interleave(run(A), B): identity and order of foreign values, deep "
-             "equality of outputs for selected values, directory snapshots, launched commands")
+             "equality of outputs for selected values, directory snapshots, launched commands; the way "
+             "a value is left unselected is an axis too (selector answers False / test raises an "
+             "exception of every class under a tolerant selector)")
